@@ -47,6 +47,7 @@ type SrvWorld struct {
 	started    chan struct{}
 	finalTries int
 	lossFree   bool
+	issuedAt   map[int]int64 // op id -> instant it was issued
 	authMu     sync.Mutex
 	users      map[string]string // the operator's user table as of now
 }
@@ -562,6 +563,10 @@ func (w *SrvWorld) scheduleNext() {
 		w.prevIssue = w.K.Now()
 		w.K.Stats.Op(op.Kind)
 		w.K.OpIssued(op.ID)
+		if w.issuedAt == nil {
+			w.issuedAt = map[int]int64{}
+		}
+		w.issuedAt[op.ID] = w.K.Now()
 		w.exec(op)
 		w.scheduleNext()
 	})
